@@ -70,6 +70,10 @@ typedef struct {
   // For #line directive
   char *display_name;
   int line_delta;
+
+  // For #include_next: index of the include path after the one
+  // in which this file was found
+  int include_next_idx;
 } File;
 
 // Token type
